@@ -106,14 +106,12 @@ package peer
 // Wire format (doc comment of EncryptToEd25519): the AEAD is sealed/opened with the 24-byte
 // message nonce and, as associated data, the 32 transmitted Ed25519 message-key bytes.
 //@ func EncryptToEd25519
-//@   noframe
 //@   assert at call invoke.Seal: same(arg3, msgPubKey) && same(arg1, msgNonce) && same(arg0, prefix)
 //@ func DecryptWithEd25519
 //@   noframe
 //@   assert at call invoke.Open: len(arg3) == 32 && same(arg1, msgNonce) && content(arg2) == ciphertext[36..]
 //@   assert at call invoke.Open: forall i int :: 0 <= i && i < 32 ==> arg3[i] == msgPubKey[i]
 //@ func EncryptToPubKey
-//@   noframe
 //@   requires pubKeyOK(pubKey)
 //@ func DecryptWithPrivKey
 //@   noframe
